@@ -9,6 +9,8 @@ use math::{
 
 use crate::model::{f17::F17, no_fmt};
 
+pub mod extra;
+
 //@ harness=c12__permute_index tier=quick kind=prove cap=600 :: permute_index(size, i) is the bit reversal of the low log2(size) bits, an involution and stays below size; all power-of-two sizes up to 2^63 and all indexes
 #[kani::proof]
 #[kani::unwind(66)]
